@@ -5,7 +5,7 @@
 (* its own: a line that fails is printed as <<"REJECT", {line, fails}>> (fails =   *)
 (* "<form>:<clause>") and the validation goes on.  TRACE=<file.ndjson>.            *)
 (*   {op:"ripser", n, edges:[[a,b,w],..], dense, t (-1: none), dmax, p, nsimp, oracle, *)
-(*    runs:[{form, enc, dims:[..], out:[[dim,birth,death],..], exception?, problems?}]} *)
+(*    runs:[{form, enc, dims:[..], out:[[dim,birth,death,count],..], exception?, problems?}]} *)
 (* dense: the edges are a whole dissimilarity matrix and t the threshold argument;  *)
 (* otherwise they are the sparse edge list (threshold argument ignored).           *)
 EXTENDS RipsPersistence, Json, IOUtils
@@ -35,16 +35,18 @@ Dispatched(n, dmax, p) ==
   IN  IF s <= 64 THEN "bf64" ELSE IF s <= 128 THEN "bf128" ELSE "cns128"
 Forced(form) == Len(form) >= 4 /\ SubSeq(form, 1, 4) = "enc_"
 
+(* out: the intervals received, equal ones grouped: [dim, birth, death, how many] *)
 GotBag(out) ==
   LET keep == {i \in DOMAIN out : out[i][2] < out[i][3]}
-      keys == {out[i] : i \in keep}
-  IN  {[dim |-> k[1], b |-> k[2], d |-> k[3], n |-> Cardinality({i \in keep : out[i] = k})] : k \in keys}
+      keys == {<<out[i][1], out[i][2], out[i][3]>> : i \in keep}
+      mult(k) == FoldSet(LAMBDA i, acc : acc + (IF <<out[i][1], out[i][2], out[i][3]>> = k THEN out[i][4] ELSE 0), 0, keep)
+  IN  {[dim |-> k[1], b |-> k[2], d |-> k[3], n |-> mult(k)] : k \in keys}
 
 RunFails(e, r, exp, useExp) ==
   IF "exception" \in DOMAIN r THEN {"exception"}
   ELSE Unless("problems" \notin DOMAIN r, "output_not_from_input")
        \cup Unless(r.dims = [i \in 1..(TopDim(e.n, e.dmax) + 1) |-> i - 1], "dims")
-       \cup Unless(\A i \in DOMAIN r.out : r.out[i][2] <= r.out[i][3], "negative_interval")
+       \cup Unless(\A i \in DOMAIN r.out : r.out[i][2] <= r.out[i][3] /\ r.out[i][4] >= 1, "negative_interval")
        \cup Unless(~useExp \/ GotBag(r.out) = exp, "diagram")
        \cup Unless(Forced(r.form) \/ r.enc = Dispatched(e.n, e.dmax, e.p), "encoding_formula")
 
@@ -57,10 +59,11 @@ Fails(e) ==
   IF e.op # "ripser" THEN {"unknown_op"}
   ELSE IF ~WellTyped(e) THEN {"input"}
   ELSE LET G   == GraphOf(e)
-           exp == IF e.oracle THEN RipsDiagramAlg(e.n, G, e.dmax, e.p) ELSE {}
+           exp == IF e.oracle THEN RipsDiagramFast(e.n, G, e.dmax, e.p) ELSE {}
        IN  UNION {{r.form \o ":" \o f : f \in RunFails(e, r, exp, e.oracle)} : r \in {e.runs[i] : i \in DOMAIN e.runs}}
            \cup Unless(Len(e.runs) > 0, "no_run")
            \cup Unless(e.oracle \/ FormsAgree(e), "forms_disagree")
+           \cup Unless(~e.oracle \/ e.n > 16 \/ RipsDiagramAlg(e.n, G, e.dmax, e.p) = exp, "spec_fast_vs_alg")
            \cup Unless(~e.oracle \/ e.nsimp > DefMaxSimplices \/ e.n > 9 \/ e.p > 46341 \/ RipsDiagramDef(e.n, G, e.dmax, e.p) = exp, "spec_def_vs_alg")
 
 Judge(k) == LET f == Fails(Tr[k]) IN
